@@ -38,11 +38,16 @@ var idlTokens = []string{
 type group struct {
 	id        int
 	t         *target
-	kind      string // corpus bytes mut1 mut2 cut family text tok
+	kind      string // corpus bytes mut1 mut2 cut family text tok recursive
 	label     string
 	n         int
 	input     func(i int) []byte
 	monotone  bool // inputs grow along one axis: stop after the first failure
+	everyCase bool // never abandoned: every case is run, whatever the number of failures (recursive.go)
+	// caseClass, when set, names the class of input i: the third fingerprint
+	// component of a case that kills its worker or runs out of time
+	caseClass func(i int, phase string) string
+	describe  func(i int) string // optional: what case i is, for the report
 	chunk     int
 	priority  int
 	abandoned atomic.Bool
@@ -198,6 +203,9 @@ func buildGroups(ts []*target, tier string) []*group {
 	byTarget := map[string]*target{}
 	for _, t := range ts {
 		t := t
+		if t.aux {
+			continue
+		}
 		byTarget[t.entry] = t
 		// corpus self-check: every item must be accepted
 		if len(t.corpus) > 0 {
@@ -325,6 +333,9 @@ func buildGroups(ts []*target, tier string) []*group {
 					input: func(i int) []byte { return data[:i] }})
 			}
 		}
+	}
+	for _, g := range recursiveGroups(ts, tier) {
+		add(g)
 	}
 	return gs
 }
